@@ -15,6 +15,9 @@ import (
 
 func init() { register("C17", "exploration", runC17) }
 
+// results kept from the previous call of each conversion, looked at again after the next call (single-threaded shards)
+var c17heldPlmn, c17heldSnssai, c17heldPco, c17heldIP held
+
 func runC17(ctx *Ctx) {
 	r := ctx.R
 	if ctx.Isolate() {
@@ -33,6 +36,7 @@ func runC17(ctx *Ctx) {
 			return
 		}
 		l.CaseN(true, uint64(got[1])<<8|uint64(got[2]))
+		c17heldPlmn.next(r, "PlmnIDToNas/result-changed-by-a-later-call", got, mcc+"/"+mnc)
 		if !bytes.Equal(got, want) {
 			r.Violate(fmt.Sprintf("PlmnIDToNas/value/mnclen=%d", len(mnc)), mcc+"/"+mnc, fmt.Sprintf("got %x want %x", got, want), nil)
 		}
@@ -73,6 +77,7 @@ func runC17(ctx *Ctx) {
 			return
 		}
 		l.CaseN(true, uint64(len(got))<<8|uint64(sst))
+		c17heldSnssai.next(r, "SnssaiToNas/result-changed-by-a-later-call", got, fmt.Sprintf("sst=%d sd=%q", sst, sd))
 		want := []byte{1, byte(sst)}
 		if sd != "" {
 			want = append([]byte{4, byte(sst)}, hx(sd)...)
@@ -143,6 +148,7 @@ func runC17(ctx *Ctx) {
 			if int(t.Value.BitLength) != 8*len(want) || !bytes.Equal(t.Value.Bytes, want) {
 				r.Violate("IPAddressToNgap/value/"+kind, cs, fmt.Sprintf("got %x/%d want %x", t.Value.Bytes, t.Value.BitLength, want), nil)
 			}
+			c17heldIP.next(r, "IPAddressToNgap/result-changed-by-a-later-call", t.Value.Bytes, cs)
 			o4, o6 = ngapConvert.IPAddressToString(t)
 		})
 		l.Case(cs, true, o4+o6)
@@ -234,6 +240,7 @@ func runC17(ctx *Ctx) {
 			return
 		}
 		l.Case(cs, true, fmt.Sprint(len(got)))
+		c17heldPco.next(r, "PCO/result-changed-by-a-later-call", got, cs)
 		if !bytes.Equal(got, want) {
 			r.Violate("PCO/Marshal-value", cs, fmt.Sprintf("got %x want %x", got, want), nil)
 		}
